@@ -579,3 +579,120 @@ def prov9(ctx, pid):
         ctx.ok("unpack:_bytes_to_nibbles", g.loc(), "every byte yields its two nibbles from the forward table", nontrivial=False)
     else:
         ctx.bad("unpack:_bytes_to_nibbles", g.loc(), "_bytes_to_nibbles does not yield NIBBLES_LOOKUPS[byte] for every byte")
+
+
+# ---------------------------------------------------------------------------
+@rule("SIB7b", ["C16"])
+def sib7b(ctx, pid):
+    """Bit-string packing: writer and reader agree on bit order (MSB first) and on the header layout of the
+    key-path packing (flag nibble, 2-bit length-mod-4 field, zero padding), decided by constant propagation
+    over the finite case split len % 4 x (padded length % 8)."""
+    eng = S(ctx)
+    cm = ctx.P.modules["trie.constants"]
+    B = "trie.utils.binaries:"
+    # ---- bit order of encode_to_bin / decode_from_bin
+    exp_node = cm.const_nodes.get("EXP")
+    exp_src = ast.unparse(exp_node).replace(" ", "") if exp_node is not None else ""
+    msb_first = exp_src in ("tuple(reversed(tuple((2**iforiinrange(8)))))", "tuple(reversed(tuple(2**iforiinrange(8))))",
+                            "(128,64,32,16,8,4,2,1)", "tuple(2**iforiinrange(7,-1,-1))")
+    f = ctx.P.func(B + "encode_to_bin")
+    src = ast.unparse(f.node).replace(" ", "")
+    writer_ok = "forcharin%s:" % f.params[0] in src and "forexpinEXP:" in src and "ifchar&exp:" in src and "yieldTrue" in src and "yieldFalse" in src
+    g = ctx.P.func(B + "decode_from_bin")
+    gsrc = ast.unparse(g.node).replace(" ", "")
+    reader_ok = "partition_all(8,%s)" % g.params[0] in gsrc and "sum((2**exp*bitfor(exp,bit)inenumerate(reversed(chunk))))" in gsrc.replace("forexp,bitin", "for(exp,bit)in")
+    c = "bit-order:encode_to_bin/decode_from_bin"
+    if msb_first and writer_ok and reader_ok:
+        ctx.ok(c, f.loc(), "writer emits bits for weights 128..1 in that order; reader weights the reversed 8-chunk by 2**index: both MSB first")
+    elif not msb_first:
+        ctx.bad(c, "trie/constants.py", "EXP is `%s`: the weights are not 128, 64, .., 1 (MSB first) as the reader assumes" % ast.unparse(exp_node)[:60] if exp_node is not None else "EXP missing")
+    elif not writer_ok:
+        ctx.unsure(c, f.loc(), "encode_to_bin has a shape the rule does not recognise")
+    else:
+        ctx.unsure(c, g.loc(), "decode_from_bin has a shape the rule does not recognise")
+    for d_ in (f, g):
+        if not any(x.endswith("apply_to_return_value") for x in d_.decos):
+            ctx.bad("bytes-result:%s" % d_.name, d_.loc(), "%s no longer converts its generator to bytes" % d_.name)
+    # ---- key-path header layout
+    two = ctx.P.const(cm, "TWO_BITS")
+    p00 = ctx.P.const(cm, "PREFIX_00")
+    p10 = ctx.P.const(cm, "PREFIX_100000")
+    okc = two == [bytes([0, 0]), bytes([0, 1]), bytes([1, 0]), bytes([1, 1])] and p00 == bytes([0, 0]) and p10 == bytes([1, 0, 0, 0, 0, 0])
+    if okc:
+        ctx.ok("keypath-constants", "trie/constants.py", "TWO_BITS[i] is the 2-bit encoding of i; PREFIX_00 = 00, PREFIX_100000 = 100000", nontrivial=False)
+    else:
+        ctx.bad("keypath-constants", "trie/constants.py", "TWO_BITS / PREFIX_00 / PREFIX_100000 are not the 2-bit table and the 00 / 100000 headers")
+        return
+    w = ctx.P.func(B + "encode_from_bin_keypath")
+    r = ctx.P.func(B + "decode_to_bin_keypath")
+    ib = ("p", w.params[0])
+    # writer: per (len % 4, flag) the header bits in front of the payload
+    headers = {}
+    probs = []
+    for p, st in pq.states(ctx, w):
+        if p.exit[0] != "return":
+            continue
+        ret = st.ret
+        if not (ret[0] == "call" and ret[1] == B + "decode_from_bin"):
+            probs.append("writer does not return decode_from_bin(header + padded bits)")
+            continue
+        t = ret[2][0]
+        # ((PREFIX + TWO_BITS[len % 4]) + (bytes((4 - len) % 4) + input))
+        flat = []
+
+        def flatten(x):
+            if x[0] == "bin" and x[1] == "+":
+                flatten(x[2])
+                flatten(x[3])
+            else:
+                flat.append(x)
+        flatten(t)
+        flag = None
+        for tt, pol, _ in st.log:
+            rr = rel_norm(tt, pol)
+            if rr and rr[0] in ("==", "!=") and rr[2] == C(4):
+                flag = (rr[0] == "==")
+        headers[flag] = flat
+    L4 = ("bin", "%", ("len", ib), C(4))
+    pad = ("call", "ext:bytes", (("bin", "%", ("bin", "-", C(4), ("len", ib)), C(4)),), ())
+    want_tail = [("sub", C(tuple(two)) if False else None, None)]
+    for flag, pre in ((True, p00), (False, p10)):
+        flat = headers.get(flag)
+        if flat is None:
+            probs.append("writer has no path for padded length %% 8 %s 4" % ("==" if flag else "!="))
+            continue
+        ok = len(flat) == 4 and flat[0] == C(pre) and flat[1][0] == "sub" and flat[1][2] == L4 and flat[2] == pad and flat[3] == ib
+        if not ok:
+            probs.append("writer header for the %s case is `%s`, expected %r + TWO_BITS[len %% 4] + bytes((4 - len) %% 4) + bits"
+                         % ("half-byte" if flag else "full-byte", " + ".join(tstr(x)[:30] for x in flat), pre))
+    # reader: skips 4 when the first bit is 1, checks 00, reads the 2-bit field, skips 4 + (4 - field) % 4
+    pth = ("call", B + "encode_to_bin", (("p", r.params[0]),), ())
+    rrows = {}
+    for p, st in pq.states(ctx, r):
+        if p.exit[0] != "return":
+            continue
+        first1 = None
+        for tt, pol, _ in st.log:
+            rr = rel_norm(tt, pol)
+            if rr and rr[0] in ("==", "!=") and rr[1] == ("sub", pth, C(0)) and rr[2] == C(1):
+                first1 = rr[0] == "=="
+        base = ("slice", pth, C(4), None) if first1 else pth
+        ret = st.ret
+        idx = ("call", "m:index", (C(tuple(two)) if False else ("list", tuple(C(x) for x in two)), ("slice", base, C(2), C(4))), ())
+        want = ("slice", base, ("bin", "+", ("bin", "%", ("bin", "-", C(4), idx), C(4)), C(4)), None)
+        want2 = ("slice", base, eng.mk_bin("+", C(4), ("bin", "%", ("bin", "-", C(4), idx), C(4))), None)
+        checked = any(rel_norm(tt, pol) == ("==", ("slice", base, C(0), C(2)), C(p00)) or rel_norm(tt, pol) == ("==", ("slice", base, None, C(2)), C(p00)) for tt, pol, _ in st.log)
+        rrows[first1] = (ret in (want, want2), checked, tstr(ret)[:80])
+    for k in (True, False):
+        v = rrows.get(k)
+        if v is None:
+            probs.append("reader has no path for first bit %s" % ("1" if k else "0"))
+        elif not v[0]:
+            probs.append("reader (first bit %s) returns `%s`; expected the bits after 4 header bits plus (4 - field) %% 4 padding bits, after dropping the 1000 nibble" % ("1" if k else "0", v[2]))
+        elif not v[1]:
+            probs.append("reader does not check the 00 marker")
+    c = "keypath-layout:encode_from_bin_keypath/decode_to_bin_keypath"
+    if probs:
+        ctx.bad(c, w.loc(), probs[0], witness={"problems": probs})
+    else:
+        ctx.ok(c, w.loc(), "header = (00 | 100000) + TWO_BITS[len % 4] + (4 - len) % 4 zero bits; the reader drops 1000 if present, checks 00, reads the field and skips the same padding: 4 (+4) + (4 - len % 4) % 4 bits on both sides")
